@@ -715,9 +715,14 @@ def sec_classify(rec, patches=None):
             return np.full(SH, float(len(calls) - 1), dtype=np.float32)
 
     class StubClf:
-        def __init__(self, stack, mask, n_components=2, n_clusters=2, seed=0):
-            clf_args.append((stack, mask, n_components, n_clusters, seed))
+        # the constructor signature and the public surface of the real PcaClassifier (positional or keyword calls, `labels` or `_labels`)
+        def __init__(self, image_stack, mask_image=None, n_components=2, n_clusters=2, seed=0):
+            clf_args.append((image_stack, mask_image, n_components, n_clusters, seed))
             self._labels = None
+
+        @property
+        def labels(self):
+            return self._labels
 
         def run(self):
             self._labels = np.array(LAB, dtype=np.int32)
